@@ -38,6 +38,13 @@ second is well-formed (resp. wholly known) — C08 proves the TYPE of a conversi
 but not that the outcome is a well-formed value again.  The former witnesses are kept as
 `…_witness_fixed` (and as harness cases that must pass); the full statements stay as
 `def`s: not proved in that generality, searched by the harness on every run.
+
+Fuel (d09): `unifyTyF` is stable from `2·depth + 2` activations on and `unifyTy` (what `Env.std` runs)
+is its value at every sufficient fuel and a fixed point of one activation (`fuel_monotone_partial`,
+`fuel_enough`, `unify_type_fixpoint`; below the bound more fuel CAN change an answer:
+`fuel_monotone_counterexample`); the full model `unifyF` needs two activations (`unify_fuel_two`).
+`UnifyLaws` and `SetLaws` are proved of the environment the C09 driver runs (`unifyLaws_driver`,
+`setLaws_driver`, `…_driver` corollaries).
 -/
 import CtyModel.Lemmas.UnifyTyLaws
 import CtyModel.Lemmas.UnifyProps
@@ -47,6 +54,7 @@ import CtyModel.Lemmas.UnifyUnsafe
 import CtyModel.Lemmas.UnifyFlat
 import CtyModel.Lemmas.d09Fuel
 import CtyModel.Lemmas.d09Fuel2
+import CtyModel.Lemmas.ConvertD08SetEnv
 namespace CtyModel
 namespace C09
 open Convert Ty Unify
@@ -906,6 +914,52 @@ theorem nil_iff_equal_unsafe_placeholder_witness :
 example : applyU (Env.std Env.simple) 8
     (.plan (.wrap (.list .string) (.tupToList [.nil] true))) ⟨.tuple [.string], .seq [.s "b"]⟩ =
       .ok ⟨.list .string, .seq [.s "b"]⟩ := rfl
+
+/-! ## The environment the C09 driver runs
+
+The theorems above hold for every `E` with `UnifyLaws E` (and `SetLaws E` where members of sets are
+hashed).  Both laws are PROVED of the environment the correspondence driver diffs against the real
+code on every run (`Driver/HUnify.lean: unEnv = Env.std (Env.concrete unifyTy)` — `unify` is
+`unifyTy`, hash / equivalence / order of set members are C08's transliterations of Value.Hash,
+Equals and the set ordering), so the applied-conversion clauses are statements about that model. -/
+
+/-- the environment of `Driver/HUnify.lean` -/
+def driverEnv : Env := Env.std (Env.concrete unifyTy)
+
+theorem unifyLaws_driver : UnifyLaws driverEnv := unifyLaws_std _
+
+theorem setLaws_driver : SetLaws driverEnv where
+  hash_ok := (setLaws_concrete unifyTy).hash_ok
+  equiv_ok := (setLaws_concrete unifyTy).equiv_ok
+
+/-- `convs_yield_unified_slots_wt_partial` for the driver's environment -/
+theorem convs_yield_unified_driver (n fuel' : Nat) (uns : Bool) (types : List Ty) (t : Ty) (cs : Convs) (i : Nat)
+    (c : UConv) (v r : Value) (ht : plainTy t = true)
+    (h : unifyF driverEnv (n + 2) uns types = .ok (some (t, cs))) (hc : cs[i]? = some (some c))
+    (hi : types[i]? = some v.ty) (hv : Value.wt v = true) (hT : ∀ m ∈ stepTargets c, plainTy m = true)
+    (ha : applyU driverEnv fuel' c v = .ok r) : r.ty = t ∧ yieldsUnified t r = true :=
+  convs_yield_unified_slots_wt_partial driverEnv unifyLaws_driver (n + 2) fuel' uns types t cs i c v r ht h hc hi hv hT ha
+
+/-- `safe_convs_total_slots_wt_partial` for the driver's environment -/
+theorem safe_convs_total_driver (n fuel' : Nat) (types : List Ty) (t : Ty) (cs : Convs) (i : Nat) (c : UConv)
+    (v : Value) (ht : plainTy t = true) (h : unify driverEnv (n + 2) types = .ok (some (t, cs)))
+    (hc : cs[i]? = some (some c)) (hi : types[i]? = some v.ty) (hv : Value.wt v = true)
+    (hk : Payload.whollyKnown v.v = true) (hT : ∀ m ∈ stepTargets c, plainTy m = true) :
+    (∃ r, applyU driverEnv fuel' c v = .ok r ∧ r.ty = t) ∨ applyU driverEnv fuel' c v = .unmodelled :=
+  safe_convs_total_slots_wt_partial driverEnv unifyLaws_driver setLaws_driver (n + 2) fuel' types t cs i c v ht h hc hi hv hk hT
+
+/-- `no_panic_applied_slots_wt_partial` for the driver's environment -/
+theorem no_panic_applied_driver (n fuel' : Nat) (uns : Bool) (types : List Ty) (t : Ty) (cs : Convs) (i : Nat)
+    (c : UConv) (v : Value) (ht : plainTy t = true)
+    (h : unifyF driverEnv (n + 2) uns types = .ok (some (t, cs))) (hc : cs[i]? = some (some c))
+    (hi : types[i]? = some v.ty) (hv : Value.wt v = true) (hk : Payload.whollyKnown v.v = true)
+    (hT : ∀ m ∈ stepTargets c, plainTy m = true) : (applyU driverEnv fuel' c v).isPanic = false :=
+  no_panic_applied_slots_wt_partial driverEnv unifyLaws_driver setLaws_driver (n + 2) fuel' uns types t cs i c v ht h hc hi hv hk hT
+
+/-- the hypotheses are jointly satisfiable on the driver's environment: the composed closure of the
+former witness, its step targets placeholder-free -/
+example : (unify driverEnv 4 totalWitnessTys).map (fun o => o.map fun r => (r.1, r.2[0]?)) =
+    .ok (some (.list (.list .string), some (some totalWitnessConv))) := rfl
 
 end C09
 end CtyModel
